@@ -698,8 +698,46 @@ def datadir(B):
     B.obs.append(('dump', B.dump('a')['arrayvalues.bin']))
 
 
+def creation(B):
+    d = B.darr
+    np_ = B.np
+    a = attempt(B, 'dtypearg', lambda: d.asarray(B.path('a1'), B.arr('x1', 5, (2,), 'int32', 'big'), dtype='float32', chunklen=2))
+    handle(B, 'h1', a)
+    B.obs.append(('d1', B.dump('a1')))
+    a = attempt(B, 'samebig', lambda: d.asarray(B.path('a2'), B.arr('x2', 4, (), 'float64', 'big'), dtype='float64'))
+    handle(B, 'h2', a)
+    B.obs.append(('d2', B.dump('a2')))
+
+    def it():
+        yield B.arr('i1', 2, (2,), 'int16', 'big', 1)
+        yield B.arr('i2', 0, (2,), 'float64', 'little', 10)
+        yield B.arr('i3', 3, (2,), 'float64', 'little', 20)
+    a = attempt(B, 'iter', lambda: d.asarray(B.path('a3'), it()))
+    handle(B, 'h3', a)
+    B.obs.append(('d3', B.dump('a3')))
+    a = attempt(B, 'iterdt', lambda: d.asarray(B.path('a4'), it(), dtype='float32'))
+    handle(B, 'h4', a)
+    src = d.asarray(B.path('src'), B.arr('s', 5, (), 'int16', 'little'))
+    a = attempt(B, 'fromdarr', lambda: d.asarray(B.path('a5'), src, chunklen=2))
+    handle(B, 'h5', a)
+    a = attempt(B, 'scalar', lambda: d.asarray(B.path('a6'), 3.5))
+    handle(B, 'h6', a)
+    a = attempt(B, 'scalarint', lambda: d.asarray(B.path('a7'), 3, dtype='int8'))
+    handle(B, 'h7', a)
+    B.obs.append(('d7', B.dump('a7')))
+    a = attempt(B, 'create', lambda: d.create_array(B.path('c1'), shape=(7, 2), dtype='float32', fill=2, chunklen=3))
+    handle(B, 'hc1', a)
+    a = attempt(B, 'createint', lambda: d.create_array(B.path('c2'), shape=5, dtype='int8'))
+    handle(B, 'hc2', a)
+    B.obs.append(('dc2', B.dump('c2')))
+    attempt(B, 'fillboth', lambda: d.create_array(B.path('c3'), shape=5, fill=1, fillfunc=lambda i: i))
+    attempt(B, 'samepath', lambda: d.asarray(B.path('src'), src))
+    attempt(B, 'emptynd', lambda: d.asarray(B.path('e1'), B.arr('e', 0, (2,), 'int32', 'little'), dtype='int32'))
+    B.obs.append(('de1', B.dump('e1')))
+
+
 SCENARIOS = {f.__name__: f for f in [array_basic, array_append, array_truncate, array_assign,
-                                        array_failappend, ragged_basic, ragged_fail, readonly, metadata, baddescr, foreign, datadir]}
+                                        array_failappend, ragged_basic, ragged_fail, readonly, metadata, baddescr, foreign, datadir, creation]}
 
 
 def run(names, stub_readme=True):
